@@ -234,6 +234,8 @@ PROFILES = {
     'faultretry': {'faultretry': True},
     # more than 128 outputs rebuilt by a failing build (backup store beyond one directory)
     'bulk': {'bulk': True},
+    # base history for a fault at the creation of a directory of the backup store (slots 128-171 share one with a later slot)
+    'bulkfault': {'bulk': True, 'bulk_n': [300]},
     'swap': {'swap': True},
     # the cache file lives in a directory of its own that the build has to create (C12, C01, C02)
     'subcache': {'subcache': True, 'p_clean': 0.35, 'p_crash': 0.25, 'p_double_clean': 0.3},
@@ -351,7 +353,7 @@ EXO_LEAVES = [['x y'], ['.dot'], ['d d', 'f\u00fcr.txt'], ['d d', '\u00e9t\u00e9
               ['d d', '\u00e9t\u00e9', '-dash']]
 
 CORRUPT = ['truncate', 'bitflip', 'notgzip', 'empty', 'gzip_nonjson', 'json_nonobject', 'other_software',
-           'newer_format', 'missing_key', 'dir']
+           'newer_format', 'missing_key', 'dir', 'bitflip_inplace', 'bitflip_inplace']
 
 
 def make_refuse(seed, profile):
@@ -383,6 +385,10 @@ def make_refuse(seed, profile):
                                   'root': st.get('root', [])})
                 else:
                     how = rnd.choice(CORRUPT)
+                    if rnd.random() < 0.4:
+                        # the cache file is read (and found to belong to another build) right before it is damaged
+                        steps.append({'op': rnd.choice(['build', 'clean']), 'name': 'OTHER', 'vers': st.get('vers', {}),
+                                      'root': st.get('root', [])})
                     steps.append({'op': 'ext', 'do': 'corrupt_cache', 'p': ['k'], 'how': how,
                                   'arg': rnd.randrange(64)})
                     for _ in range(rnd.choice([1, 1, 2])):
@@ -967,11 +973,14 @@ def make_bulk(seed, profile):
     """Many outputs (C02): more than 128 files are rebuilt - i.e. moved aside, which takes the backup store into
     its sub-directory scheme - by a build that then fails; the rollback has to put every one of them back."""
     rnd = random.Random('bulk:%s' % seed)
-    n = rnd.choice([131, 200, 270])
+    n = rnd.choice(PROFILES[profile].get('bulk_n', [131, 200, 270]))
     paths = [['b%d' % (i % 7), 'f%d' % i] for i in range(n)]
-    prog = {'fW': W_, 'fW2': [{'s': 'write', 'c': 'c2', 'sz': 6}, {'s': 'return'}]}
+    prog = {'fW': W_, 'fW2': [{'s': 'write', 'c': 'c2', 'sz': 6}, {'s': 'return'}], 'f0': [{'s': 'return'}],
+            'fR2': [{'s': 'write', 'c': 'c3', 'sz': 4}, {'s': 'raise'}]}
     calls1 = [{'s': 'bf', 'p': p, 'f': 'fW', 'args': [], 'cmp': 'METADATA'} for p in paths]
-    calls2 = [{'s': 'bf', 'p': p, 'f': 'fW2', 'args': [], 'cmp': 'METADATA'} for p in paths]
+    # the rebuilding calls tolerate failures (an injected fault, a function that creates nothing or raises)
+    calls2 = [{'s': 'bf', 'p': p, 'f': 'fW2' if rnd.random() < 0.9 else rnd.choice(['f0', 'fR2']), 'args': [],
+               'cmp': 'METADATA', 'catch': True} for p in paths]
     rnd.shuffle(calls2)
     steps = [{'op': 'build', 'name': 'B', 'vers': {}, 'root': calls1 + [{'s': 'return'}]},
              {'op': 'build', 'name': 'B', 'vers': {}, 'root': calls2 + [{'s': 'raise'}]},
